@@ -130,9 +130,9 @@ def obligations(tier: str):
     funcs = [tz.to_circuitikz, sd.to_drawing, cc.Circuit.to_sympy, cc.Circuit.to_latex]
     quick = tier == "quick"
     obs = [
-        Obligation("shapes", make_harness(3 if quick else 4, 1 if quick else 2, ["R"], False, drawing=not quick),
+        Obligation("shapes", make_harness(3, 1 if quick else 2, ["R"], False, drawing=not quick),
                    bounds="every parser-reachable nest (parallel >= 2 items) of <= %d resistors, depth <= %d, labels none/all/alternating; node_width/node_height symbolic > 0"
-                          % (3 if quick else 4, 2 if quick else 3), functions=funcs, expect_reach=["circuitikz", "exports"], max_paths=2000000, key=_key),
+                          % (3, 2 if quick else 3), functions=funcs, expect_reach=["circuitikz", "exports"], max_paths=2000000, key=_key),
         Obligation("deep", make_harness(4, 2, ["R"], False, drawing=False, plain=True),
                    bounds="every parser-reachable nest of <= 4 unlabelled resistors with three levels of nesting (e.g. a series inside a parallel ending in a parallel)",
                    functions=funcs, expect_reach=["circuitikz", "exports"], max_paths=2000000, key=_key),
